@@ -297,6 +297,20 @@ def _find_cycles(graph):
     return nontrivial_components
 
 
+def _location_for_cycle_node(node, ir):
+    """Returns the location of the named object, or of its enclosing type.
+
+    Synthesized fields such as `$size_in_bytes` have no location of their own;
+    the structure they belong to is the best place to point the user to.
+    """
+    while len(node) > 1:
+        location = ir_util.find_object(node, ir).source_location
+        if location:
+            return location
+        node = node[:-1]
+    return None
+
+
 def _find_object_dependency_cycles(ir):
     """Finds dependency cycles in types in the ir."""
     dependencies, find_dependency_errors = _find_dependencies(ir)
@@ -314,7 +328,7 @@ def _find_object_dependency_cycles(ir):
         error_group = [
             error.error(
                 cycle_list[0][0],
-                node_object.source_location,
+                _location_for_cycle_node(cycle_list[0], ir),
                 "Dependency cycle\n" + node_object.name.name.text,
             )
         ]
@@ -322,7 +336,9 @@ def _find_object_dependency_cycles(ir):
             node_object = ir_util.find_object(node, ir)
             error_group.append(
                 error.note(
-                    node[0], node_object.source_location, node_object.name.name.text
+                    node[0],
+                    _location_for_cycle_node(node, ir),
+                    node_object.name.name.text,
                 )
             )
         errors.append(error_group)
